@@ -171,7 +171,7 @@ pub fn seed(rng: &mut Prng, id: u64, lengthless: bool) -> El {
     El { label, method, bytes: b.bytes() }
 }
 
-pub const N_MUT: u64 = 104;
+pub const N_MUT: u64 = 105;
 
 /// One mutated request. `k` selects the operator (0..N_MUT).
 pub fn mutant(rng: &mut Prng, id: u64, k: u64) -> El {
@@ -338,6 +338,9 @@ pub fn mutant(rng: &mut Prng, id: u64, k: u64) -> El {
         96 => { label = "hdr:obs_fold".into(); b.hb(b"X-Fold: a\r\n b").h(&cl_line(&n.to_string())); b.body = data; }
         97 => { label = "conn:close_then_more".into(); b.h("Connection: close").h(&cl_line(&n.to_string())); b.body = data; }
         98 => { label = "conn:upgrade_tricks".into(); b.h(*rng.pick(&["Connection: Upgrade, HTTP2-Settings", "Connection: upgrade", "Connection: Content-Length", "Connection: Transfer-Encoding, keep-alive", "Connection: Host"])).h(*rng.pick(&["Upgrade: h2c", "Upgrade: websocket", "HTTP2-Settings: AAMAAABkAARAAAAAAAIAAAAA"])).h(&cl_line(&n.to_string())); b.body = data; }
+        // HTTP/1.0 keep-alive request with neither Content-Length nor Transfer-Encoding: no body (RFC 9112 6.3),
+        // whatever is pipelined behind it is the next request, not its body
+        99 => { label = "line:http10_lengthless".into(); b.line = format!("GET {path} HTTP/1.0").into_bytes(); b.h("Connection: keep-alive"); }
         100 => { label = "hdr:obs_text".into(); b.hb(b"X-Obs: caf\xe9 \xff").h(&cl_line(&n.to_string())); b.body = data; }
         101 => { label = "line:long_target".into(); b.line = format!("POST /{} HTTP/1.1", "t".repeat(9000 + rng.below(20000) as usize)).into_bytes(); b.h(&cl_line(&n.to_string())); b.body = data; }
         102 => { label = "chunk:size_leading_zeros".into(); b.h("Transfer-Encoding: chunked"); b.body = format!("000000000000{:x}\r\n", n).into_bytes(); b.body.extend_from_slice(&data); b.body.extend_from_slice(b"\r\n0000\r\n\r\n"); }
